@@ -45,6 +45,12 @@ def proof_jobs(tier):
         jobs.append(("mapper", K.EVAL, f, None))
     for fc in K.FUNCTIONS:
         jobs.append(("function", fc, None, None))
+    # "the plain and the memoizing evaluator always agree": the cache contract of C05
+    from contracts import c05
+    jobs.append(("function", c05.KEY_INJ, None, None))
+    import pymbolic.primitives as p
+    for fc in c05.cached_contracts([p.Sum, p.Variable, p.CommonSubexpression]):
+        jobs.append(("function", fc, None, None))
     return jobs
 
 
@@ -135,7 +141,9 @@ def domain(tier):
               p.Call(p.Variable("f"), (trees.X, p.Sum((trees.Y, 1)))),
               p.Subscript(p.Variable("a"), p.Sum((trees.X, 0))), p.Lookup(p.Variable("o"), "real"),
               p.Lookup(p.Variable("o"), "imag"), p.Power(0, trees.X), p.Power(trees.X, -1),
-              p.Product((trees.X, p.Quotient(1, trees.Y))), p.Product((0, p.Variable("unbound")))]
+              p.Product((trees.X, p.Quotient(1, trees.Y))), p.Product((0, p.Variable("unbound"))),
+              p.Product((p.Sum((trees.X, -1)), p.Sum((trees.X, -2)))), p.Sum((p.Power(trees.X, 2), p.Power(trees.X, 2.0))),
+              p.Sum((p.Product((trees.X, 0)), p.Product((trees.X, 2**61 - 1))))]
     return trees.dedup(exprs)
 
 
